@@ -171,32 +171,73 @@ class ProgramOptionsSave(Contract):
                             cl, al = strlit(args_[lp[0]]), strlit(args_[rp[0]])
                             if cl and al:
                                 copies.add((cl, al))
-        # every such copy is guarded by `count(alias)` alone: a further condition (e.g. on the target's defaulted() flag) leaves the
-        # stored value behind while notify() still hands the legacy value to the shared member
-        guarded_extra = set()
-        def _scan_ifs(fnode, resolve):
-            for n in _walk(fnode):
-                if n.get('kind') != 'IfStmt':
-                    continue
-                cond, thn = n['inner'][0], n['inner'][1]
+        # ---- guard chain of every copy: the conditions (those that consult the variables map) of the enclosing `if`s, outermost first.
+        # Two shapes keep "the value saved = the value the run uses" (C13) for every invocation:
+        #   [count(alias)]                                  the alias value always replaces the stored value of the current name
+        #   [count(alias), current.defaulted()] + erase     the alias value replaces it only if the current name was not given itself, and
+        #                                                   the alias entry is erased in the count(alias) branch, so that notify() cannot
+        #                                                   hand the alias value to the shared member after the current name's value
+        # (the second shape is also what "command line beats config file, legacy names act like current names" needs, C20)
+        guard_chain = {}          # pair -> list of guard labels
+        erased = {}               # alias -> True if `_vm.erase("alias")` stands directly in the branch guarded by count(alias)
 
-                def shallow(x):
-                    # the statements this `if` guards directly (nested ifs have their own, inner, guard)
-                    if isinstance(x, dict):
-                        yield x
-                        for ch in x.get('inner', []) or []:
-                            if isinstance(ch, dict) and ch.get('kind') == 'IfStmt':
-                                continue
-                            yield from shallow(ch)
-                for a_ in shallow(thn):
-                    pair = resolve(a_)
-                    if pair is None:
+        def _classify(cond):
+            mems = [x.get('name') for x in _walk(cond) if x.get('kind') == 'MemberExpr']
+            if '_vm' not in mems:
+                return None                      # not about the variables map (file exists, stream good, ...): context, not a guard
+            logic = [x for x in _walk(cond) if x.get('kind') == 'BinaryOperator' and x.get('opcode') in ('&&', '||')]
+            neg = [x for x in _walk(cond) if x.get('kind') == 'UnaryOperator' and x.get('opcode') == '!']
+            lits = [x.get('value', '').strip('"') for x in _walk(cond) if x.get('kind') == 'StringLiteral']
+            if logic or neg or len(lits) != 1:
+                return 'other'
+            if set(mems) <= {'count', '_vm'} and 'count' in mems:
+                return 'count:' + lits[0]
+            if 'defaulted' in mems and set(mems) <= {'defaulted', '_vm', 'at'}:
+                return 'defaulted:' + lits[0]
+            return 'other'
+
+        def _shallow(x):
+            if isinstance(x, dict):
+                yield x
+                for ch in x.get('inner', []) or []:
+                    if isinstance(ch, dict) and ch.get('kind') == 'IfStmt':
                         continue
-                    mems = set(x.get('name') for x in _walk(cond) if x.get('kind') == 'MemberExpr')
-                    logic = [x for x in _walk(cond) if x.get('kind') == 'BinaryOperator' and x.get('opcode') in ('&&', '||')]
-                    neg = [x for x in _walk(cond) if x.get('kind') == 'UnaryOperator' and x.get('opcode') == '!']
-                    if not mems <= {'count', '_vm'} or logic or neg:
-                        guarded_extra.add(pair)
+                    yield from _shallow(ch)
+
+        def _scan_ifs(fnode, resolve):
+            def rec(node, chain):
+                if not isinstance(node, dict):
+                    return
+                if node.get('kind') == 'IfStmt':
+                    inner = node.get('inner', [])
+                    lab = _classify(inner[0])
+                    thn_chain = chain + ([lab] if lab is not None else [])
+                    if lab is not None and lab.startswith('count:') and len(inner) > 1:
+                        for a_ in _shallow(inner[1]):
+                            if a_.get('kind') == 'CXXMemberCallExpr' and a_['inner'][0].get('kind') == 'MemberExpr' and a_['inner'][0].get('name') == 'erase' and \
+                                    any(y.get('kind') == 'MemberExpr' and y.get('name') == '_vm' for y in _walk(a_['inner'][0])) and strlit(a_) == lab[6:]:
+                                erased[lab[6:]] = True
+                    rec(inner[0], chain)
+                    if len(inner) > 1:
+                        rec(inner[1], thn_chain)
+                    if len(inner) > 2:
+                        rec(inner[2], chain + (['other'] if lab is not None else []))      # else-branch of a map condition: not a shape we know
+                    return
+                pair = resolve(node)
+                if pair is not None and pair not in guard_chain:
+                    guard_chain[pair] = list(chain)
+                for ch in node.get('inner', []) or []:
+                    rec(ch, chain)
+            rec(fnode, [])
+
+        def shape_of(pair):
+            ch = guard_chain.get(pair)
+            if ch == ['count:' + pair[1]]:
+                return 'always'
+            if ch == ['count:' + pair[1], 'defaulted:' + pair[0]] and erased.get(pair[1]):
+                return 'unless_given'
+            return None
+        guarded_extra = set()
 
         def _direct(a_):
             if a_.get('kind') in ('CXXOperatorCallExpr', 'BinaryOperator') and len(a_.get('inner', [])) >= 2:
@@ -210,6 +251,12 @@ class ProgramOptionsSave(Contract):
                         return (l_[0], r_[0])
             return None
         _scan_ifs(parses[0], _direct)
+        for pr in copies:
+            if pr not in guard_chain:
+                # the copy is done through a helper function: its guards are partly inside the helper, which this analysis does not follow
+                raise ExtractionError(f'ProgramOptions::parse: the copy {pr[1]} -> {pr[0]} is not a statement of parse() itself (helper?): the guard analysis of the alias copies has to be rewritten')
+        guarded_extra = set(pr for pr in copies if shape_of(pr) is None)
+        self.last_shapes = {pr: shape_of(pr) for pr in copies}
         # ---- the run uses the member variables, the results file and the saved config the variables map: after the stored value
         # of a canonical option has been replaced by the alias value, notify() has to hand it to the member again (notify applies
         # the options in map order, so a defaulted canonical option sorted after its alias has overwritten the alias value)
@@ -257,7 +304,7 @@ class ProgramOptionsSave(Contract):
         pb = body(parses[0])
         _visit(pb, [])
         for pr in sorted(copies):
-            ex.obls.append(Obligation(f'ProgramOptions::parse#alias.{pr[1]}.member_renotified_after_copy', {'C13', 'C10'}, [], z3.BoolVal(bool(renotified.get(pr, False))), 'postcondition', None,
+            ex.obls.append(Obligation(f'ProgramOptions::parse#alias.{pr[1]}.member_renotified_after_copy', {'C13', 'C10', 'C20'}, [], z3.BoolVal(bool(renotified.get(pr, False))), 'postcondition', None,
                                       f'after the stored value of {pr[0]} is replaced by the value of {pr[1]}, notify(_vm) follows unconditionally before parse() returns, so the member the simulation reads holds the value the results file and the saved config record'))
         nalias = 0
         for mem, names in sorted(bound.items()):
@@ -266,7 +313,7 @@ class ProgramOptionsSave(Contract):
                 for c_ in canon:
                     nalias += 1
                     ok = (c_, alias) in copies and (c_, alias) not in guarded_extra
-                    ex.obls.append(Obligation(f'ProgramOptions::save#alias.{alias}.value_reaches_{c_}', {'C13'}, [], z3.BoolVal(ok), 'postcondition', None,
+                    ex.obls.append(Obligation(f'ProgramOptions::save#alias.{alias}.value_reaches_{c_}', {'C13', 'C20'}, [], z3.BoolVal(ok), 'postcondition', None,
                                               f'legacy option {alias} and {c_} are bound to the same member {mem}; save() skips {alias}, so parse() must copy its value into the stored value of {c_} whenever {alias} is given (found copies {sorted(copies)}, conditionally guarded: {sorted(guarded_extra)})'))
         # ---- the writer leaves out an entry only by NAME.  If it also leaves out entries whose defaulted() flag is set, then
         # no stored value may have been changed in place (the copies above keep the flag): such an option would be dropped
@@ -448,7 +495,7 @@ class ProgramOptionsGetters(Contract):
                 raise ExtractionError(f'ProgramOptions: option {opt} is not registered with a bound variable (renamed?)')
             ok = mem in bound[opt]
             ntrivial += 1
-            ex.obls.append(Obligation(f'ProgramOptions::{g}#returns_value_of_option.{opt}', set(tags), [], z3.BoolVal(ok), 'postcondition', line_of(fns[0]),
+            ex.obls.append(Obligation(f'ProgramOptions::{g}#returns_value_of_option.{opt}', set(tags) | {'C20'}, [], z3.BoolVal(ok), 'postcondition', line_of(fns[0]),
                                       f'{g}() returns member {mem}; option {opt} is bound to {sorted(bound[opt])}'))
         ex.oblig(State(), 'canary', z3.BoolVal(False), 'canary', set())
         info = {'unit': self.name, 'file': self.tu, 'sha': tu.sha, 'cases': 1, 'lines': [None, None], 'getters': ntrivial, 'extract_s': 0}
@@ -1294,4 +1341,176 @@ class HDF5FileUnits(Contract):
         obls.append(Obligation('HDF5File#unit.no_unlisted_attribute', {'C10'}, [], z3.BoolVal(not extra), 'postcondition', None, f'attributes written by the constructor that the contract does not know: {extra}'))
         ex.obls = obls + [Obligation('HDF5File#unit.canary', set(), [], z3.BoolVal(False), 'canary', None, '')]
         info = {'unit': self.name + ' (unit attributes)', 'file': self.tu, 'sha': tu.sha, 'cases': 1, 'lines': [line_of(ctor), line_of(ctor)], 'extract_s': 0, 'attributes': len(found)}
+        return [ex], info
+
+
+class ProgramOptionsPrecedence(Contract):
+    """C20 (partial): what Inovesa's own code contributes to "command line beats config file beats default; legacy aliases are
+    honoured; compatibility-only options are ignored; bad input stops the program before anything is simulated".
+    The option library is bound to a stated contract (assumptions A-PO-*, listed in the evidence):
+      A-PO-STORE   variables_map::store never replaces a value stored earlier unless that value is defaulted;
+      A-PO-NOTIFY  notify applies every stored value to the variable it is bound to, in the order of the map (option name order);
+      A-PO-THROW   parse_command_line / parse_config_file / store throw (a std::exception) on an unknown option or a malformed value;
+      A-PO-DEFAULT an option that was not given has defaulted() == true and carries its registered default.
+    Facts are read off the real AST of ProgramOptions (constructor, parse) and of main's prologue."""
+    name = 'vfps::ProgramOptions::parse'
+    tu = 'src/IO/ProgramOptions.cpp'
+    tags = {'C20'}
+    ALIASES = {'SyncFreq': 'SynchrotronFrequency', 'RFVoltage': 'AcceleratingVoltage', 'steps': 'StepsPerTs'}
+    replay = lambda self, o, model, pid: {'driver': 'main', 'scenarios': ['options']}
+
+    def custom_verify(self, scratch, tc):
+        tu = tc.get(self.tu)
+        ctor = tu.function('vfps::ProgramOptions::ProgramOptions')
+        parses = tu.funcs.get('vfps::ProgramOptions::parse', [])
+        if len(parses) != 1:
+            raise ExtractionError('ProgramOptions::parse not found')
+        parse = parses[0]
+        ex = Exec(tu, parse, 'ProgramOptions::parse')
+        ex.default_tags = {'C20'}
+        obls = []
+
+        def ob(label, ok, note):
+            obls.append(Obligation(f'ProgramOptions::parse#{label}', {'C20'}, [], z3.BoolVal(bool(ok)), 'postcondition', None, note))
+
+        def callee_name(n):
+            c_ = n['inner'][0]
+            while c_.get('kind') in ('ImplicitCastExpr', 'ParenExpr'):
+                c_ = c_['inner'][0]
+            return (c_.get('referencedDecl') or {}).get('name') or c_.get('name')
+        # ---- (1) order of the two store() calls
+        stores = []
+        for n in _walk(body(parse)):
+            if n.get('kind') == 'CallExpr' and callee_name(n) == 'store':
+                src = [callee_name(x) for x in _walk(n) if x.get('kind') == 'CallExpr' and callee_name(x) in ('parse_command_line', 'parse_config_file', 'parse_environment')]
+                grp = [x.get('name') for x in _walk(n) if x.get('kind') == 'MemberExpr' and x.get('name', '').endswith('opts')]
+                stores.append((n.get('range', {}).get('begin', {}).get('offset', 0), src[0] if src else '?', grp[0] if grp else '?'))
+        stores.sort()
+        kinds = [k for _, k, _ in stores]
+        ob('command_line_stored_first', kinds[:1] == ['parse_command_line'] and kinds.count('parse_command_line') == 1 and 'parse_config_file' in kinds and '?' not in kinds,
+           f'values are stored in the order {kinds}: with A-PO-STORE the first one stored wins, so the command line must be stored before the config file')
+        groups = {k: g for _, k, g in stores}
+        # ---- (2) which option groups the two parsers know
+        members = {}            # group -> set of groups added
+        names = {}              # group -> option names registered directly
+        cur = None
+        for n in _walk(ctor):
+            if n.get('kind') == 'CXXMemberCallExpr' and n['inner'][0].get('kind') == 'MemberExpr' and n['inner'][0].get('name') == 'add':
+                tgt = [x.get('name') for x in _walk(n['inner'][0]) if x.get('kind') == 'MemberExpr' and x.get('name') != 'add']
+                arg = [x.get('name') for x in _walk(n['inner'][1]) if x.get('kind') == 'MemberExpr'] if len(n['inner']) > 1 else []
+                if tgt and arg:
+                    members.setdefault(tgt[0], set()).add(arg[0])
+        # registrations: walk statements of the constructor body; each `X.add_options()(...)...` chain belongs to group X
+        for st_ in body(ctor).get('inner', []):
+            grp = [x.get('name') for x in _walk(st_) if x.get('kind') == 'MemberExpr' and x.get('name', '').startswith('_') and x.get('name', '').endswith(('opts', 'opts_cli', 'opts_file', 'opts_alias', 'opts_ignore'))]
+            addopt = any(x.get('kind') == 'MemberExpr' and x.get('name') == 'add_options' for x in _walk(st_))
+            if addopt and grp:
+                for x in _walk(st_):
+                    if x.get('kind') == 'CXXOperatorCallExpr' and len(x.get('inner', [])) >= 3:
+                        nm = strlit(x['inner'][2]) if x['inner'][2].get('kind') in ('ImplicitCastExpr', 'StringLiteral') else None
+                        if nm:
+                            names.setdefault(grp[-1] if False else grp[0], set()).add(nm.split(',')[0])
+
+        def closure(g, seen=None):
+            seen = seen or set()
+            out = set(names.get(g, set()))
+            for m in members.get(g, set()):
+                if m not in seen:
+                    out |= closure(m, seen | {g})
+            return out
+        cli, cfg = closure(groups.get('parse_command_line', '?')), closure(groups.get('parse_config_file', '?'))
+        if len(cli) < 40 or len(cfg) < 40:
+            raise ExtractionError(f'ProgramOptions constructor: option groups not recognised ({len(cli)} command-line, {len(cfg)} config-file names)')
+        info_only = {'help', 'copyright', 'version', 'buildinfo', 'config'}
+        ob('config_file_accepts_every_run_option', (cli - info_only) <= cfg, f'options of the command line that a config file does not know: {sorted((cli - info_only) - cfg)}')
+        # ---- (3) legacy aliases (shape facts shared with C13: see ProgramOptionsSave)
+        save_c = ProgramOptionsSave()
+        exs_, _info = save_c.custom_verify(scratch, tc)
+        by_name = {o.name: o for e_ in exs_ for o in e_.obls}
+        for alias, canon in sorted(self.ALIASES.items()):
+            ob(f'alias.{alias}.registered_for_config_files', alias in cfg and alias not in cli, f'{alias} is accepted in config files only (legacy name of {canon})')
+            reach = by_name.get(f'ProgramOptions::save#alias.{alias}.value_reaches_{canon}')
+            ren = by_name.get(f'ProgramOptions::parse#alias.{alias}.member_renotified_after_copy')
+            ok = reach is not None and ren is not None and z3.is_true(reach.goal) and z3.is_true(ren.goal)
+            ob(f'alias.{alias}.acts_like_{canon}', ok, f'the value of {alias} reaches the stored value of {canon} and the member it is bound to ({"yes" if ok else "no"})')
+        # the second shape only: current name given explicitly (command line, A-PO-STORE/A-PO-DEFAULT) => alias ignored
+        shapes = getattr(save_c, 'last_shapes', {})
+        for alias, canon in sorted(self.ALIASES.items()):
+            ob(f'alias.{alias}.yields_to_{canon}_given_explicitly', shapes.get((canon, alias)) == 'unless_given',
+               f'copy of {alias} is guarded by count({alias}) and {canon}.defaulted(), and the {alias} entry is erased before the final notify (found shape: {shapes.get((canon, alias))})')
+        # ---- (4) missing config file: message and refusal
+        refused = False
+        for n in _walk(body(parse)):
+            if n.get('kind') == 'IfStmt':
+                lits = [x.get('value', '') for x in _walk(n['inner'][0]) if x.get('kind') == 'StringLiteral']
+                if any('default.cfg' in l for l in lits) and len(n['inner']) > 1:
+                    thn = n['inner'][1]
+                    says = any('does not exist' in (x.get('value') or '') for x in _walk(thn) if x.get('kind') == 'StringLiteral')
+                    rets = [x for x in _walk(thn) if x.get('kind') == 'ReturnStmt']
+                    retf = rets and all(any(y.get('kind') == 'CXXBoolLiteralExpr' and y.get('value') is False for y in _walk(r)) for r in rets)
+                    refused = bool(says and retf)
+        ob('missing_config_file_refused_with_a_message', refused, 'a config file that does not exist (other than the implicit default.cfg) is reported and parse() returns false')
+        # ---- (5) main's prologue: errors end the program with a failure status, before anything is simulated
+        mtu = tc.get('src/main.cpp', 'main')
+        mfn = mtu.function('main')
+        stmts = body(mfn).get('inner', [])
+        try_idx, ok_fail, ok_false = None, False, False
+        for i_, st_ in enumerate(stmts):
+            if st_.get('kind') == 'CXXTryStmt' and any(x.get('kind') == 'CXXMemberCallExpr' and x['inner'][0].get('name') == 'parse' for x in _walk(st_)):
+                try_idx = i_
+                handlers = [h for h in st_.get('inner', []) if h.get('kind') == 'CXXCatchStmt']
+                for h in handlers:
+                    rets = [x for x in _walk(h) if x.get('kind') == 'ReturnStmt']
+                    vals = [[int(y.get('value')) for y in _walk(r) if y.get('kind') == 'IntegerLiteral'] for r in rets]
+                    says = any(x.get('kind') == 'CXXMemberCallExpr' and x['inner'][0].get('name') == 'what' for x in _walk(h))
+                    catches_std = any('exception' in (x.get('type', {}).get('qualType', '')) for x in _walk(h) if x.get('kind') == 'VarDecl')
+                    if rets and all(v and v[0] != 0 for v in vals) and says and catches_std:
+                        ok_fail = True
+                tryb = st_['inner'][0]
+                for x in _walk(tryb):
+                    if x.get('kind') == 'IfStmt' and any(y.get('kind') == 'CXXMemberCallExpr' and y['inner'][0].get('name') == 'parse' for y in _walk(x['inner'][0])) \
+                            and any(y.get('kind') == 'UnaryOperator' and y.get('opcode') == '!' for y in _walk(x['inner'][0])):
+                        ok_false = any(y.get('kind') == 'ReturnStmt' for y in _walk(x['inner'][1]))
+                break
+        if try_idx is None:
+            raise ExtractionError('main: the try block around opts.parse() was not found')
+        ob('main.parse_error_is_reported_with_failure_status', ok_fail, 'main catches std::exception from parse(), prints e.what() and returns a non-zero status')
+        ob('main.refused_invocation_ends_before_anything_is_simulated', ok_false, 'if parse() returns false main returns at once')
+        sim_words = ('PhaseSpace', 'makeImpedance', 'ElectricField', 'HDF5File', 'makePSFrom')
+        first_sim = next((i_ for i_, st_ in enumerate(stmts) if any((x.get('type', {}).get('qualType', '') or '').find(w) >= 0 or (x.get('referencedDecl') or {}).get('name', '') .startswith(w)
+                                                                         for x in _walk(st_) for w in sim_words if x.get('kind') in ('CXXConstructExpr', 'DeclRefExpr', 'CXXNewExpr'))), None)
+        ob('main.options_are_parsed_before_anything_is_built', first_sim is None or try_idx < first_sim, f'parse() is statement {try_idx} of main, the first construction of a simulation object is statement {first_sim}')
+        # ---- (6) options accepted for compatibility only have no effect: the variables they are bound to are not read by main
+        ign = closure('_compatopts_ignore')
+        bound = {}
+        for n in _walk(ctor):
+            if n.get('kind') != 'CXXOperatorCallExpr':
+                continue
+            args = n.get('inner', [])[1:]
+            if len(args) < 3:
+                continue
+            nm = strlit(args[1]) if args[1].get('kind') in ('ImplicitCastExpr', 'StringLiteral') else None
+            if not nm:
+                continue
+            for x in _walk(args[2]):
+                if x.get('kind') == 'UnaryOperator' and x.get('opcode') == '&':
+                    mem = [y.get('name') for y in _walk(x) if y.get('kind') == 'MemberExpr']
+                    if mem:
+                        bound.setdefault(nm.split(',')[0], set()).add(mem[0])
+        main_calls = set(x['inner'][0].get('name') for x in _walk(mfn) if x.get('kind') == 'CXXMemberCallExpr' and x['inner'][0].get('kind') == 'MemberExpr')
+        for nm in sorted(ign):
+            mems = bound.get(nm, set())
+            # members shared with an option that is NOT compatibility-only are read on behalf of that option
+            shared = set(m for m in mems for other, ms in bound.items() if other not in ign and m in ms)
+            getters = []
+            for q, fl in tu.funcs.items():
+                if q.startswith('vfps::ProgramOptions::get') or q.startswith('vfps::ProgramOptions::show'):
+                    for f in fl:
+                        if any(x.get('kind') == 'MemberExpr' and x.get('name') in (mems - shared) for x in _walk(f)):
+                            getters.append(q.split('::')[-1])
+            used = sorted(set(getters) & main_calls)
+            ob(f'compat.{nm}.has_no_effect', not used, f'option {nm} (compatibility only) is bound to {sorted(mems)}; accessors of those members called by main: {used}')
+        ex.obls = obls + [Obligation('ProgramOptions::parse#canary', set(), [], z3.BoolVal(False), 'canary', None, '')]
+        info = {'unit': self.name + ' (precedence, aliases, refusals)', 'file': self.tu + ' + src/main.cpp (prologue)', 'sha': tu.sha, 'cases': 1, 'lines': [line_of(parse), line_of(parse)], 'extract_s': 0,
+                'command_line_options': len(cli), 'config_file_options': len(cfg)}
         return [ex], info
